@@ -579,6 +579,10 @@ func (g *ProgGen) Stmt() (string, bool) {
 				d := Pick(g.r, g.dicts)
 				switch g.r.Intn(4) {
 				case 0:
+					if g.o.RichText && g.r.Chance(1, 6) {
+						// prototype links between the dicts of the program (possibly looping)
+						return d + ".__proto__ = " + Pick(g.r, g.dicts) + "; " + d + "." + Pick(g.r, []string{"nope", "k", "zz + 1", "len()"}), false
+					}
 					return d + "." + Pick(g.r, dictKeys) + " = " + g.Int(), false
 				case 1:
 					if g.o.RichText && g.r.Bool() {
@@ -690,6 +694,10 @@ func (g *ProgGen) Stmt() (string, bool) {
 						g.arrs = addUniq(g.arrs, n)
 						return n + " = [&" + c + ", &" + c + ", 1]", false
 					}
+				}
+				if g.r.Chance(1, 3) {
+					// a computed value whose body yields another computed value, unevaluated
+					return Pick(g.r, []string{"&ind1 = &" + c + "; ind1", "hold = [&" + c + "]; &ind2 = hold[0]; ind2", "&ind1 = &" + c + "; x = ind1; `{ind1}`", "&ind1 = &" + c + "; ind1 + 1"}), false
 				}
 				return "&" + c + ".bonus = " + g.lit(), false
 			}
